@@ -530,6 +530,122 @@ def describe(items, d=0):
     return out
 
 
+def deep_values(R, B, vm):
+    """values whose encoding nests hundreds of cells - tuples of 256..1000 entries (the length field has 16 bits; one more cell level per entry), tuples nested
+    100..1000 deep, stacks of 500..1022 entries - serialised and parsed by the library under Python's default recursion limit; the reference encoder runs
+    under a raised limit; construction and comparison are iterative"""
+    import sys
+
+    def long_tuple(n):
+        return [n, ('tuple', [i - 3 for i in range(n)]), None], lambda: [n, vm.VmTuple([i - 3 for i in range(n)]), None]
+
+    def long_inside_short(n):
+        return [('tuple', [7, ('tuple', list(range(n))), 8])], lambda: [vm.VmTuple([7, vm.VmTuple(list(range(n))), 8])]
+
+    def nested(n):
+        ref, lib = ('tuple', [5]), vm.VmTuple([5])
+        for i in range(n):
+            ref, lib = ('tuple', [i, ref] if i % 2 else [ref]), vm.VmTuple([i, lib] if i % 2 else [lib])
+        return [ref, 1], lambda: [lib, 1]
+
+    def deep_stack(n):
+        return [None if i % 7 == 3 else i - 5 for i in range(n)], lambda: [None if i % 7 == 3 else i - 5 for i in range(n)]
+
+    def flat(x):
+        """iterative structure of library values: nested lists of ints / None"""
+        out = []
+        work = [(out, x)]
+        while work:
+            dst, v = work.pop()
+            for item in (v.list if isinstance(v, vm.VmTuple) else v):
+                if isinstance(item, vm.VmTuple):
+                    sub = []
+                    dst.append(sub)
+                    work.append((sub, item))
+                else:
+                    dst.append(item)
+        return out
+
+    def flat_ref(items):
+        out = []
+        work = [(out, items)]
+        while work:
+            dst, v = work.pop()
+            for item in v:
+                if isinstance(item, tuple):
+                    sub = []
+                    dst.append(sub)
+                    work.append((sub, item[1]))
+                else:
+                    dst.append(item)
+        return out
+
+    def eq(a, b):
+        """iterative comparison of nested lists"""
+        work = [(a, b)]
+        while work:
+            x, y = work.pop()
+            if isinstance(x, list) != isinstance(y, list):
+                return False
+            if isinstance(x, list):
+                if len(x) != len(y):
+                    return False
+                work.extend(zip(x, y))
+            elif x != y or type(x) is not type(y):
+                return False
+        return True
+
+    # the recorded finding covers the sizes from FAILS up; a RecursionError below that is a different violation
+    FAILS = {'long-tuple': 600, 'nested-tuples': 600, 'deep-stack': 1010}
+    cases = [('long-tuple', long_tuple, n) for n in (256, 257, 300, 400, 450, 600, 1000)]
+    cases += [('long-tuple', long_inside_short, n) for n in (256, 260, 440, 700)]
+    cases += [('nested-tuples', nested, n) for n in (100, 200, 300, 600, 1000)]
+    cases += [('deep-stack', deep_stack, n) for n in (256, 500, 900, 1010, 1021)]
+    for mech, make, n in cases:
+        W = {'shape': make.__name__, 'n': n, 'recursion_limit': 1000}
+        old = sys.getrecursionlimit()
+        sys.setrecursionlimit(30000)
+        try:
+            items, mk = make(n)
+            want = rc.RC(*enc_stack(items))
+            want_lib = bridge.to_lib(want, 'builder')
+            expect = flat_ref(items)
+        finally:
+            sys.setrecursionlimit(1000)
+        try:
+            libvals = mk()
+            before = flat(libvals)
+            st, c1 = mon.call(vm.VmStack.serialize, libvals)
+            R.count('deep_value_cases')
+            R.cover('deep_value_shapes', f'{make.__name__}-{n}')
+            R.counters['oracle_evaluations'] += 1
+            if st == 'exc':
+                R.exc(c1)
+                R.violation(f'recursion-limit-{mech}-serialize' if isinstance(c1, RecursionError) and n >= FAILS[mech] else f'deep-value-{n}-serialize-raises-{mech}-{type(c1).__name__}',
+                            f'VmStack.serialize raised {type(c1).__name__} on {make.__name__}({n})', W)
+            else:
+                R.check(eq(flat(libvals), before), f'serialize-consumes-caller-values-{mech}', f'VmStack.serialize changed the caller-held values ({make.__name__}({n}))', W)
+                R.check(c1.hash == want.hash, f'encoding-differs-{mech}', f'{make.__name__}({n}): cell differs from the VmStack schema encoding (block.tlb)', W)
+                st, c2 = mon.call(vm.VmStack.serialize, libvals)
+                R.check(st == 'ok' and c2.hash == c1.hash, f'serialize-twice-differs-{mech}', f'{make.__name__}({n}): serialising twice gives different cells', W)
+            for src_name, cell in (('own', c1 if st == 'ok' else None), ('reference', want_lib)):
+                if cell is None:
+                    continue
+                st2, got = mon.call(vm.VmStack.deserialize, cell.begin_parse())
+                R.counters['oracle_evaluations'] += 1
+                if st2 == 'exc':
+                    R.exc(got)
+                    R.violation(f'recursion-limit-{mech}-parse' if isinstance(got, RecursionError) and n >= FAILS[mech] else f'deep-value-{n}-deserialize-raises-{mech}-{type(got).__name__}',
+                                f'VmStack.deserialize of the {src_name} cell raised {type(got).__name__} on {make.__name__}({n})', W)
+                    continue
+                ok = isinstance(got, list) and eq(flat(got), expect)
+                R.check(ok, f'roundtrip-value-{mech}', f'{src_name} cell: {make.__name__}({n}) came back with another structure '
+                        f'(top-level lengths {[len(v) if isinstance(v, vm.VmTuple) else None for v in got][:5] if isinstance(got, list) else got!r})', W)
+        finally:
+            sys.setrecursionlimit(old)
+        R.case(mon.fp('deep', make.__name__, n))
+
+
 def run(R):
     B = bridge.lib()
     import importlib
@@ -542,7 +658,8 @@ def run(R):
               'and from the reference cell; caller values fingerprinted before/after; serialised twice; distinct = distinct logical stack; '
               'non-trivial = stack with at least one value')
     R.assumptions = ['-2^63 may use either integer form (schema freedom): excluded from the bit-exact comparison, kept in the round trip',
-                     'depth and tuple length <= 255 (recursive encoder, Python recursion limit)']
+                     'random stacks: depth and tuple length <= 255; deep_values: tuples of 256..1000 entries, nesting 100..1000, stacks of 256..1021 entries under the '
+                     'default recursion limit (RecursionError there is the recorded known finding)']
     fixed = [[], [None], [0], [2 ** 63 - 1], [2 ** 63], [-2 ** 63], [-2 ** 63 - 1], [2 ** 256 - 1], [-2 ** 256],
              [('tuple', [])], [('tuple', [1])], [('tuple', [1, 2])], [('tuple', [1, 2, 3])], [('tuple', [1, 2, 3, 4])],
              [('tuple', [('tuple', [('tuple', [7])])])], [1, ('tuple', [1, 2, 3]), 2]]
@@ -621,6 +738,8 @@ def run(R):
             one_stack(R, B, vm, [('tuple', [i - 3 for i in range(n)]), n], {'stack': f'tuple of length {n}'})
             R.cover('tuple_lengths', n)
             R.case(mon.fp('tuplen', n))
+    if R.shard == 0:
+        deep_values(R, B, vm)
     R.floor('double_serialisations', 50)
     if R.nshards == 1:
         R.floor('control_data_combinations', 288)
